@@ -52,16 +52,14 @@ def _is_cached_spec(ex, st, post, result):
     yield ('timestamp_from_backend_metadata',
            z3.Implies(z3.And(cached, z3.Not(none_T)), z3.BoolVal(len(meta) == 1)),
            'with a threshold, the timestamp compared is the one loaded from the backend metadata')
-    # C20: a tile that is going to be re-created does not keep the validators of the version it replaces
-    from pyvc.values import VNone
-    rts = [e for e in st.trace if e.name == 'setattr:timestamp']
-    rsz = [e for e in st.trace if e.name == 'setattr:size']
-    forgot = len(rts) == 1 and len(rsz) == 1 and isinstance(rts[0].args[1], VNone) and isinstance(rsz[0].args[1], VNone) \
-        and bool(meta) and rts[0].recv is not None and hasattr(meta[-1][1].args[0], 't') and rts[0].recv.t.eq(meta[-1][1].args[0].t)
-    stale = z3.And(cached, z3.Not(none_T), z3.Not(res))
-    yield ('stale_metadata_is_forgotten', z3.And(z3.Implies(stale, z3.BoolVal(bool(forgot))), z3.Implies(z3.Not(stale), z3.BoolVal(not rts and not rsz))),
-           'when an existing tile is found stale, the time stamp and size loaded from the old version are cleared on the tile object '
-           '(so the re-created tile gets validators of its own); otherwise the loaded metadata stay')
+    # frame: the decision leaves the tile object as the backend loaded it.  (An earlier repair - S21 - cleared the metadata of a stale
+    # tile here; backends that do not re-read a tile which already carries bytes then had no time stamp to compare at the next
+    # is_cached / is_stale of the same object: S41.  The validators of a replaced version are dropped where the new source is
+    # attached instead: TileCreator._create_single_tile, TileManager._load_tile_coords.)
+    rts = [e for e in st.trace if e.name in ('setattr:timestamp', 'setattr:size', 'setattr:source')]
+    yield ('decision_does_not_modify_the_tile', z3.BoolVal(not rts),
+           'is_cached assigns nothing on the tile object: what load_tile_metadata loaded stays available for the next check of '
+           'the same object')
 
 
 def _s10_class(ex, st):
